@@ -66,6 +66,12 @@ impl Field for Ed448ScalarField {
     }
 
     fn deserialize(buf: &Self::Serialization) -> Result<Self::Scalar, FieldError> {
+        // The scalar is encoded in 57 bytes following RFC 8032, but it is
+        // smaller than 2^446 so the last byte must be zero.
+        // `from_canonical_bytes()` only looks at the first 56 bytes.
+        if buf.last() != Some(&0) {
+            return Err(FieldError::MalformedScalar);
+        }
         match EdwardsScalar::from_canonical_bytes(buf.into()).into() {
             Some(s) => Ok(s),
             None => Err(FieldError::MalformedScalar),
